@@ -348,10 +348,20 @@ package database
 //@ func (*Database).enhanceQueryWithNLP
 //@   modifies terms[*]
 //@   ensures[C01.enhance] pq != nil && fresh(pq) && len(enhancedTerms) >= len(terms) && (fresh(terms) ==> fresh(enhancedTerms))
+//@   ensures[C06.enhance-prefix] forall i int :: 0 <= i && i < len(terms) ==> enhancedTerms[i] == old(terms[i])
+//@   ensures[C06.enhance-cap] len(enhancedTerms) <= max(len(terms), 8)
+//@   ensures[C06.enhance-no-new-dups] forall i, j int :: 0 <= i && i < j && len(terms) <= j && j < len(enhancedTerms) ==> enhancedTerms[i] != enhancedTerms[j]
 //@ loop 1
 //@   invariant len(terms) >= len(old(terms)) && ((base(terms) == base(old(terms)) && offset(terms) == offset(old(terms)) && cap(terms) == cap(old(terms))) || fresh(terms))
+//@   invariant forall i int :: 0 <= i && i < len(old(terms)) ==> terms[i] == old(terms[i])
+//@   invariant len(terms) <= max(len(old(terms)), 8)
+//@   invariant forall i, j int :: 0 <= i && i < j && len(old(terms)) <= j && j < len(terms) ==> terms[i] != terms[j]
 //@ loop 2
 //@   invariant len(terms) >= len(old(terms)) && ((base(terms) == base(old(terms)) && offset(terms) == offset(old(terms)) && cap(terms) == cap(old(terms))) || fresh(terms))
+//@   invariant forall i int :: 0 <= i && i < len(old(terms)) ==> terms[i] == old(terms[i])
+//@   invariant len(terms) <= max(len(old(terms)), 8)
+//@   invariant forall i, j int :: 0 <= i && i < j && len(old(terms)) <= j && j < len(terms) ==> terms[i] != terms[j]
+//@   invariant !found ==> (forall i int :: 0 <= i && i < $i ==> terms[i] != enhTerm)
 // Term selection (C03 / C06): short term lists pass through untouched; for longer ones each of
 // the first four terms is kept (marked isOriginal by scoreTerms, never dropped by
 // filterAndSortTerms) and nothing is invented.
@@ -415,6 +425,10 @@ package database
 //@   ensures[C03.index-current] db.uIndex != nil && db.uIndex.N == len(db.Commands)
 //@   ensures[C03.candidates-sound] !options.UseNLP && !options.UseFuzzy && db.embeddingIndex == nil ==> (forall k int :: 0 <= k && k < len(result) ==> hitSome(db, db.uIndex, tokensOf(query), cmdIdx(db, result[k].Command)))
 //@   ensures[C03.candidates-complete] !options.UseNLP && db.embeddingIndex == nil && len(result) < effLimit(options.Limit) && seqlen(tokensOf(query)) <= (options.TopTermsCap <= 0 ? 10 : options.TopTermsCap) ==> (forall d int :: hitSome(db, db.uIndex, tokensOf(query), d) ==> (exists k int :: 0 <= k && k < len(result) && result[k].Command == &db.Commands[d]))
+//@   hint[C06.tokens-kept] calculateInitialScores seqlen(tokensOf(query)) <= termsCap && termsCap >= 8 ==> (forall i int :: 0 <= i && i < seqlen(tokensOf(query)) ==> (exists m int :: 0 <= m && m < len(terms) && terms[m] == seqat(tokensOf(query), i)))
+//@   hint[C06.first-four-kept] calculateInitialScores forall i int :: 0 <= i && i < 4 && i < seqlen(tokensOf(query)) ==> (exists m int :: 0 <= m && m < len(terms) && terms[m] == seqat(tokensOf(query), i))
+//@   hint[C06.scores-superset] collectResults seqlen(tokensOf(query)) <= termsCap && termsCap >= 8 ==> (forall d int :: hitSome(db, db.uIndex, tokensOf(query), d) ==> (d in scores))
+//@   hint[C06.first-four-hits-kept] collectResults forall d, i int :: 0 <= i && i < 4 && i < seqlen(tokensOf(query)) && termHits(db, db.uIndex, seqat(tokensOf(query), i), d) ==> (d in scores)
 //@   hint[C03.scores-sound] collectResults !options.UseNLP ==> (forall d int :: (d in scores) ==> hitSome(db, db.uIndex, tokensOf(query), d))
 //@   hint[C03.scores-complete] collectResults !options.UseNLP && seqlen(tokensOf(query)) <= termsCap ==> (forall d int :: hitSome(db, db.uIndex, tokensOf(query), d) ==> (d in scores))
 //@   hint[C03.terms-are-tokens] calculateInitialScores !options.UseNLP ==> (forall m int :: 0 <= m && m < len(terms) ==> (exists i int :: 0 <= i && i < seqlen(tokensOf(query)) && seqat(tokensOf(query), i) == terms[m]))
